@@ -582,6 +582,10 @@ fn run(ctx: &mut Ctx) {
         if kind == 10 || kind == 12 {
             continue;
         }
+        // a skip is tried at every start tag: the kinds with thousands of start tags stay at 1024
+        if matches!(kind, 4 | 9 | 11 | 15) && _n > 1025 {
+            continue;
+        }
         loc.scale_docs += 1;
         let cfg = cfgs[r.below(cfgs.len())];
         if !run_case(ctx, &mut loc, &d, cfg, SrcKind::Slice, &[], &[]) {
